@@ -4,13 +4,18 @@
 //! case: {"op":"solve", "problem": <pragmatic problem>, "matrices": [<matrix>...],
 //!        "config": {"max_generations": n, "parallelism": [pools, threads] | null,
 //!                   "quota_after_polls": k | null, "seed": s, "outer_threads": t (default 1),
-//!                   "trace": n (default 0: record the first n bookkeeping states, see "trace" below)}}
+//!                   "trace": n (default 0: record the first n bookkeeping states, see "trace" below),
+//!                   "poll_sites": bool (default false; C07: label every quota poll with the code site that made it)}}
 //! res:  {"solution": <pragmatic solution JSON value>, "polls": quota polls seen, "generations": telemetry generations,
 //!        "evolution": number of telemetry evolution entries, "core_cost": Solution.cost (integer or "nonint:.."),
 //!        "core": {"routes": [{"vehicle","shift","jobs": [job id per job activity, tour order]}], "unassigned": [job ids]}}
 //!        "trace": [{"routes": [[job ids of tour.jobs()]], "required": [...], "unassigned": [...], "ignored": [...]}]
 //!                 = SolutionContext after each insertion applied by InsertionHeuristic::process on the solving thread}
-//!       | {"error": "<message>"}   (validation / reader / solver error)
+//!        "insertions": number of insertions applied by InsertionHeuristic::process on the solving thread (all, not only
+//!                      the first `trace` ones), "poll_sites": ["insertion"|"iterative"|"decompose"|"swap_star"|"other", ...]
+//!                      (only with config.poll_sites: one label per quota poll, from a captured backtrace; slow)}
+//!       | {"error": "<message>"}   (validation / reader / solver error; a solver error also carries "polls", "insertions",
+//!                                   "poll_sites")
 //! A panic anywhere in the real code is reported by the case loop as {"panic": msg}.
 //!
 //! Determinism: the solve runs on a fresh rayon pool (fresh threads => fresh thread-local repeatable RNGs seeded with 0);
@@ -21,7 +26,7 @@ use std::cell::RefCell;
 use std::io::BufWriter;
 use std::rc::Rc;
 use std::sync::atomic::{AtomicUsize, Ordering};
-use std::sync::Arc;
+use std::sync::{Arc, Mutex};
 use vrp_core::construction::heuristics::{verif_hooks, InsertionContext};
 use vrp_core::prelude::*;
 use vrp_core::rosomaxa::evolution::TelemetryMode;
@@ -35,10 +40,37 @@ use vrp_pragmatic::format::solution::{write_pragmatic, PragmaticOutputType};
 struct CountingQuota {
     polls: AtomicUsize,
     fire_at: Option<usize>,
+    /// C07: when set, the code site of every poll (innermost known frame of a captured backtrace)
+    sites: Option<Mutex<Vec<&'static str>>>,
+}
+
+/// the anchored poll sites of property C07: insertions.rs (InsertionHeuristic::process), iterative.rs (Iterative::run),
+/// decompose_search.rs (refine_decomposed), exchange_swap_star.rs
+fn poll_site() -> &'static str {
+    let bt = std::backtrace::Backtrace::force_capture().to_string();
+    for line in bt.lines() {
+        if line.contains("exchange_swap_star") {
+            return "swap_star";
+        }
+        if line.contains("InsertionHeuristic") && line.contains("process") {
+            return "insertion";
+        }
+        if line.contains("decompose_search") {
+            return "decompose";
+        }
+        if line.contains("strategies::iterative") {
+            return "iterative";
+        }
+    }
+    "other"
 }
 
 impl Quota for CountingQuota {
     fn is_reached(&self) -> bool {
+        if let Some(sites) = self.sites.as_ref() {
+            let site = poll_site();
+            sites.lock().unwrap().push(site);
+        }
         let n = self.polls.fetch_add(1, Ordering::SeqCst) + 1;
         match self.fire_at {
             Some(k) => n >= k,
@@ -76,7 +108,12 @@ fn solve(case: &Value) -> Value {
     for _ in 0..(seed % 1024) {
         random.uniform_int(0, 1000);
     }
-    let quota = Arc::new(CountingQuota { polls: AtomicUsize::new(0), fire_at });
+    let want_sites = cfg["poll_sites"].as_bool().unwrap_or(false);
+    let quota = Arc::new(CountingQuota {
+        polls: AtomicUsize::new(0),
+        fire_at,
+        sites: if want_sites { Some(Mutex::new(vec![])) } else { None },
+    });
     let quota_dyn: Arc<dyn Quota> = quota.clone();
     let environment = Arc::new(Environment::new(
         Arc::new(random),
@@ -99,9 +136,12 @@ fn solve(case: &Value) -> Value {
     // InsertionHeuristic::process ON THIS THREAD (hook in insertions.rs, thread-local observer); at most `trace` states
     let trace_limit = cfg["trace"].as_u64().unwrap_or(0) as usize;
     let trace: Rc<RefCell<Vec<Value>>> = Rc::new(RefCell::new(vec![]));
-    if trace_limit > 0 {
+    let insertions: Rc<RefCell<usize>> = Rc::new(RefCell::new(0));
+    {
         let sink = trace.clone();
+        let counter = insertions.clone();
         verif_hooks::set_insertion_observer(Some(Box::new(move |ctx: &InsertionContext| {
+            *counter.borrow_mut() += 1;
             let mut sink = sink.borrow_mut();
             if sink.len() >= trace_limit {
                 return;
@@ -122,7 +162,11 @@ fn solve(case: &Value) -> Value {
     verif_hooks::set_insertion_observer(None);
     let solution = match solved {
         Ok(s) => s,
-        Err(e) => return json!({"error": format!("solve: {}", e), "trace": Value::Array(trace.borrow().clone())}),
+        Err(e) => {
+            return json!({"error": format!("solve: {}", e), "trace": Value::Array(trace.borrow().clone()),
+                          "polls": quota.polls.load(Ordering::SeqCst), "insertions": *insertions.borrow(),
+                          "poll_sites": quota.sites.as_ref().map(|s| s.lock().unwrap().clone())})
+        }
     };
 
     let mut buf = BufWriter::new(Vec::new());
@@ -160,6 +204,8 @@ fn solve(case: &Value) -> Value {
         "generations": solution.telemetry.as_ref().map(|t| t.generations),
         "evolution": solution.telemetry.as_ref().map(|t| t.evolution.len()),
         "core_cost": num_out(solution.cost),
+        "insertions": *insertions.borrow(),
+        "poll_sites": quota.sites.as_ref().map(|s| s.lock().unwrap().clone()),
     })
 }
 
